@@ -9,6 +9,20 @@ hook_commits = [l.split()[0] for l in HOOK_COMMITS if "verif" in l.lower() and n
 
 # id -> (engine, technique, level text, level note, design ref)
 CHECKS = {
+    "C19": (
+        "E3",
+        "full product of an instant alphabet x every Time unit x duration magnitudes (arithmetic laws) and instant alphabet x every zone of the tz database (zone conversion, format/parse round trip), against an integer-nanosecond reference timeline",
+        "34 instants (epoch, leap days, range edges, sub-second parts, both sides of DST changes in 5 zones) x every prelude unit of dimension Time x 11 magnitudes: t+d must move the instant by d (integer-nanosecond reference), (t+d)-t = d, (t+d)-d = t within 1 ns + f64 resolution, out-of-range results must be range errors and in-range ones must not; every instant x every IANA zone: the instant is unchanged, the zone is the requested one, and datetime(format_datetime(F, t)) is the same instant for two full-precision formats.",
+        "Trusted: jiff's timestamp of a parsed datetime as the instant it denotes (UTC strings cross-checked against an independent day-count); alphabet-bounded instants and magnitudes.",
+        "§4 C19",
+    ),
+    "C23": (
+        "E3",
+        "exhaustive deterministic grids over each inverse pair's domain and every ordered k-subset of unit families x value grid for unit_list, with condition-scaled tolerances",
+        "Temperature scales (all spellings and the sugar), unix time (s/ms/us variants), Julian date, trig/hyperbolic/exp-log/root pairs on grids (mantissa x exponent x sign, domain edges, all alphabet instants), and unit_list over every ordered k-subset (k<=3/4) of 5 unit families x 12 values: f(f^-1(y)) = y and f^-1(f(x)) = x within stated tolerances; mixed-unit parts are in the requested units, whole except the last and add up to the original.",
+        "Trusted: per-case absolute tolerances derived from the pair's condition number; grids, not all floats.",
+        "§4 C23",
+    ),
     "C20": (
         "E3",
         "full product of input templates (every result/print/echo/info path and every diagnostic family that quotes user text) x HTML payload alphabet, rendered as the web front end does, judged by a strict tag/entity scanner",
